@@ -586,15 +586,15 @@ def _(v):
     conserves angular momentum, energy and the eccentricity vector, and lands at radius r with r rdot = eta0 G0 + zeta0 G1."""
     x = [v.real("x%d" % k) for k in range(3)]
     w = [v.real("v%d" % k) for k in range(3)]
-    r0, r0i, ri, M, dt, beta, eta0, zeta0, v2, X = (v.real(n) for n in
-                                                    ("r0", "r0i", "ri", "M", "dt", "beta", "eta0", "zeta0", "v2", "X"))
-    G = [v.real("G%d" % k) for k in range(4)]
-    F_, g_, fd_, Gd_ = v.real("F"), v.real("g"), v.real("fd"), v.real("Gd")
+    # definitions are inlined (zeta0, v2, G0, G1, dt, F, g, fd, Gd are abbreviations), which leaves three relations
+    r0, r0i, ri, M, beta, eta0, X, G2, G3 = (v.real(n) for n in ("r0", "r0i", "ri", "M", "beta", "eta0", "X", "G2", "G3"))
+    zeta0 = M - beta * r0
+    v2 = 2 * M * r0i - beta
+    G = [1 - beta * G2, X - beta * G3, G2, G3]
+    dt = r0 * X + eta0 * G[2] + zeta0 * G[3]
     rr = r0 + eta0 * G[1] + zeta0 * G[2]
-    scal = [r0i * r0 == 1, ri * rr == 1, zeta0 == M - beta * r0, v2 == 2 * M * r0i - beta,
-            G[0] == 1 - beta * G[2], G[1] == X - beta * G[3], G[1] * G[1] == G[2] * (1 + G[0]),
-            r0 * X + eta0 * G[2] + zeta0 * G[3] == dt,
-            F_ == 1 - M * G[2] * r0i, g_ == dt - M * G[3], fd_ == -M * G[1] * r0i * ri, Gd_ == 1 - M * G[2] * ri]
+    scal = [r0i * r0 == 1, ri * rr == 1, G[1] * G[1] == G[2] * (1 + G[0])]
+    F_, g_, fd_, Gd_ = 1 - M * G[2] * r0i, dt - M * G[3], -M * G[1] * r0i * ri, 1 - M * G[2] * ri
     W = F_ * Gd_ - g_ * fd_
     v.lemma("wronskian", scal, W == 1, order=PZ)
     # quadratic forms of the new state in terms of r0^2 = x.x, eta0 = x.v, v2 = v.v
